@@ -26,6 +26,11 @@ def func_cases(tier):
         for k in (1000001, 1000100):
             cases.append({"id": len(cases) + 1, "n": n, "dir": 1, "rl": [k, 1000000], "ru": [k, 1000000], "near": 1})
             cases.append({"id": len(cases) + 1, "n": n, "dir": -1, "rl": [k, 1000000], "ru": [0, 0], "near": 1})
+    # continuity in the parameters over whole sweeps of the end-gradient ratio (not only at the documented switch)
+    for n in ((2, 3, 8) if tier == "quick" else (2, 3, 5, 8, 16)):
+        for d in (-1, 1):
+            for form in ("lower", "upper", "both", "bothfixed"):
+                cases.append({"id": len(cases) + 1, "kind": "sweep", "n": n, "dir": d, "form": form, "rl": [0, 0], "ru": [0, 0], "near": 0})
     return cases
 
 
@@ -101,6 +106,13 @@ def run(tier, seed):
     v.add_traces(len(frecs) + len(srecs))
     v.add_eval(len(frecs) + len(srecs))
     for r in frecs:
+        if r.get("kind") == "sweep":
+            v.add_case("sweep n=%d dir=%d form=%s" % (r["n"], r["dir"], r["form"]))
+            for cl in sorted(failed.get(r["id"], ())):
+                v.violation("C09 engine=sweep clause=%s form=%s" % (cl, r["form"]),
+                            "getSmoothMonotonicGridFunc(n=%d, direction %d, gradients given: %s): faces move by %.2f (upper-lower) per unit ln(ratio) near ratio %s (%s)"
+                            % (r["n"], r["dir"], r["form"], r["maxslope"] / 1000.0, r.get("at"), r.get("exc", "")), {"case": r})
+            continue
         v.add_case("func n=%d dir=%d rl=%s ru=%s" % (r["n"], r["dir"], r["rl"], r["ru"]))
         for cl in sorted(failed.get(r["id"], ())):
             v.violation("C09 engine=spacing clause=%s form=%s near_switch=%d" % (cl, form(r), 1 if (r["near"] or cl == "ContinuousAcrossSwitch") else 0),
@@ -119,8 +131,9 @@ def run(tier, seed):
     if nseg_ok < 10:
         v.fail_machinery("only %d segment cases generated" % nseg_ok)
     v.note("spacing", {"function_cases": len(frecs), "segment_cases": len(srecs), "segment_cases_generated": nseg_ok, "clauses_failed": sorted({c for s in failed.values() for c in s})})
-    v.sample({"engine": "C->S spacing function", "case": {k: frecs[40][k] for k in ("n", "dir", "rl", "ru", "vals")}})
-    clean = [r for r in frecs if r["id"] not in failed and r["n"] >= 3]
+    v.sample({"engine": "C->S spacing function", "case": {k: [r for r in frecs if r.get("kind") != "sweep"][40][k] for k in ("n", "dir", "rl", "ru", "vals")}})
+    v.note("sweeps", {"n": sum(1 for r in frecs if r.get("kind") == "sweep"), "largest_slope": max([r["maxslope"] / 1000.0 for r in frecs if r.get("kind") == "sweep"] or [0])})
+    clean = [r for r in frecs if r["id"] not in failed and r["n"] >= 3 and r.get("kind") != "sweep"]
     if clean:
         a = copy.deepcopy(clean[0]); a["id"] = 1; a["steps"][2] = -a["steps"][2]
         b = copy.deepcopy(clean[0]); b["id"] = 2; b["vals"][-1] += 5
